@@ -58,6 +58,7 @@ func init() {
 			hs = append(hs, harness{Name: "gsxAPI_" + n, Pkg: "checkers", Quick: map[string]int{"K": 3, "B": 2, "strlen": 8, "paths": 1500, "wall_s": 30},
 				Thorough: map[string]int{"K": 4, "B": 2, "strlen": 8, "paths": 4000, "wall_s": 30}, NoValidate: true, Tolerant: true, ReplayFn: replayAPI(n)})
 		}
+		hs = append(hs, harness{Name: "gsxC20ExitAfterDefer", Pkg: "checkers", Solver: "z3", Quick: map[string]int{"paths": 400, "wall_s": 60}, NoValidate: true, ReplayFn: replayExitAfterDefer, MustReach: []string{"visited", "reported"}})
 		properties["C20"] = &property{ID: "C20", Level: "model_checking", Kinds: []string{"api"}, Harnesses: hs,
 			Assumptions: []string{"as C01; table of documented subjects per checker (builtin name / standard package path) in the harness"}}
 	}
@@ -76,6 +77,7 @@ func init() {
 	properties["C12"] = &property{ID: "C12", Level: "model_checking", Kinds: []string{"claim"},
 		Harnesses: []harness{
 			{Name: "gsxC12BadCond", Pkg: "checkers", Solver: "z3", Quick: map[string]int{"paths": 4000, "wall_s": 60}, NoValidate: true, Tolerant: true, ReplayFn: replayC12BadCond, MustReach: []string{"always false"}},
+			{Name: "gsxC12NilValReturn", Pkg: "checkers", Solver: "z3", Quick: map[string]int{"paths": 4000, "wall_s": 60}, NoValidate: true, ReplayFn: replayNilValReturn, MustReach: []string{"visited", "reported"}},
 			{Name: "gsxC12DupSubExpr", Pkg: "checkers", Solver: "z3", Quick: map[string]int{"paths": 4000, "wall_s": 60}, NoValidate: true, ReplayFn: replayDupSubExpr, MustReach: []string{"visited", "reported"}},
 		},
 		Assumptions: []string{"badCond: two comparisons of one operand (identifier or impure call) against integer constants in [-8,8]; an impure call yields an independent value per evaluation"}}
